@@ -17,6 +17,7 @@ type Profile struct {
 	Image, Len, Drop                                        int
 	HeapCheck, Churn, NVisit, RefCheck, Stores              int
 	CloseAll, NoGet                                         bool
+	CloseSnapsOnReopen                                      bool     // after a failed Flush bytes beyond the last root are in use too
 	FlushExtra, EndExtra                                    []string // templates with %F = file id
 	KeyOnlyReads                                            bool     // C19: bracket key-only ops with rmark/kreads
 	Iter, SetRoot, SnapRevert, Write                        int
@@ -329,7 +330,7 @@ func (g *Gen) history() []string {
 			if s == nil || s.mem {
 				return
 			}
-			if p.Write > 0 {
+			if p.Write > 0 || p.CloseSnapsOnReopen {
 				// bytes written by Collection.Write lie beyond the last root record and the next
 				// store opened on the file writes over them: snapshots still reading them go first
 				var ids []int
